@@ -119,6 +119,11 @@ def tlc(module, cfg, *, workers=None, timeout=600, tags=(), sinks=None, simulate
     written to sinks[TAG] (a path) as ndjson. Returns a dict with TLC's own numbers.
     """
     workers = workers or max(2, NCPU // 2)
+    if tags:
+        # PrintT output of concurrent TLC workers can interleave inside a line (observed: two JSON records
+        # spliced together at ~600k lines with 8 workers). Emission runs are therefore single-worker, and
+        # every emitted line is validated as JSON below.
+        workers = 1
     meta = os.path.join(OUT, "tlc", (tag or module) + "." + str(os.getpid()))
     shutil.rmtree(meta, ignore_errors=True)
     os.makedirs(meta, exist_ok=True)
@@ -154,10 +159,20 @@ def tlc(module, cfg, *, workers=None, timeout=600, tags=(), sinks=None, simulate
         line = line.rstrip("\n")
         m = _TAG_RE.match(line) if line.startswith('<<"') else None
         if m and m.group(1) in files:
-            files[m.group(1)].write(json.loads('"' + m.group(2) + '"'))
+            try:
+                txt = json.loads('"' + m.group(2) + '"')
+                if not (txt.startswith("{") or txt.startswith("[")) or txt.count('{"') < 1:
+                    raise ValueError("not a JSON document")
+            except ValueError:
+                p.kill()
+                raise ToolError(f"TLC emitted a malformed {m.group(1)} line (interleaved output?): {line[:200]}")
+            files[m.group(1)].write(txt)
             files[m.group(1)].write("\n")
             res["counts"][m.group(1)] += 1
             continue
+        if line.startswith('<<"') and any(('"' + t + '"') in line[:12] for t in files):
+            p.kill()
+            raise ToolError(f"TLC emitted a malformed tagged line: {line[:200]}")
         tail.append(line)
         if len(tail) > 400:
             del tail[:200]
